@@ -22,9 +22,9 @@ func init() {
 		Explanation: "(1) pkg/kmsg/internal/kbin/primitives.go is declaration-for-declaration identical to pkg/kbin/primitives.go after comment removal; " +
 			"(2) uvarintLens[L] == max(1, ceil(L/7)) for every bit length 0..64 and 0 elsewhere, UvarintLen/uvarlongLen index it by bits.Len32/Len64, VarintLen/VarlongLen zig-zag with the same expression as the encoders; " +
 			"(3) in Uvarint/uvarlong step k reads in[k], masks 0x7f, shifts by 7k, tests 0x80, returns k+1 and is guarded by len(in) < k+2; the last step compares the byte with 2^(W-7k)-1 and sets overflow = -(k+1); the failure return is (0, overflow); AppendUvarint/appendUvarlong case n emits n bytes with mirrored shifts and continuation bits and the cases cover 1..N; Varint/Varlong un-zig-zag with (x>>1)^-(x&1); " +
-			"(4) fixed-width appenders emit descending 8-bit shifts (big endian) of the right count; each Reader fixed-width method guards, decodes with binary.BigEndian of the same width and advances by the same byte count; compact length prefixes are len+1 on write and -1 on read, null is -1 (plain) / 0 (compact) on write and <0 -> nil on read; " +
+			"(4) fixed-width appenders emit descending 8-bit shifts (big endian) of the right count; each Reader fixed-width method guards, decodes with binary.BigEndian of the same width and advances by the same byte count; compact length prefixes are len+1 on write and -1 on read, null is -1 (plain) / 0 (compact) on write and <0 -> nil on read; the compact length is not narrowed through int8/16/32 between Uvarint() and the null test / Span (a prefix >= 2^31 is short input, not null); " +
 			"(5) every index, slice and binary.BigEndian call in package kbin is proven in bounds from dominating guards (never reads past the input).",
-		NotDecided: "value-level correctness of float encodings and of zig-zag beyond the expression shapes; behaviour of the unsafe string conversion.",
+		NotDecided: "value-level correctness of float encodings and of zig-zag beyond the expression shapes; behaviour of the unsafe string conversion; the compact nullable readers on targets whose int is 32 bits wide.",
 		Run:        runC17,
 	})
 }
